@@ -190,6 +190,9 @@ pub mod tuple {
         pub fn delete(&mut self, xid: u64) -> Result<(), String> {
             self.0.delete(xid).map_err(|e| e.to_string())
         }
+        pub fn undelete(&mut self) -> Result<(), String> {
+            self.0.undelete().map_err(|e| e.to_string())
+        }
         pub fn vacuum(&mut self, s: &Sch, oldest_active: u64) -> Result<usize, String> {
             self.0.vaccum_with(oldest_active, &s.0).map_err(|e| e.to_string())
         }
